@@ -28,28 +28,25 @@ def stmtToAsgStmt : Nat → Ast.Stmt → M (Option Stmt)
     match stmt with
     | .ifStmt _ condition trueBody falseBody =>
       let condition ← exprToAsgTexpr fuel condition
-      enterScope .localS
-      let trueBody ← match trueBody with
-        | .ok b => pure b
-        | .panicked => fail "true_body_block_or_stmt: Error in oq3_syntax"
-      let thenBranch ← blockOrStmtToAsgType fuel trueBody
-      exitScope
-      enterScope .localS
-      let elseBranch ← match falseBody with
+      let thenBranch ← withScope .localS do
+        let trueBody ← match trueBody with
+          | .ok b => pure b
+          | .panicked => fail "true_body_block_or_stmt: Error in oq3_syntax"
+        blockOrStmtToAsgType fuel trueBody
+      let elseBranch ← withScope .localS do
+        match falseBody with
         | some bors => do pure (some (← blockOrStmtToAsgType fuel bors))
         | none => pure none
-      exitScope
       let condition ← unwrap "stmt_to_asg_stmt: IfStmt condition.unwrap() on None" condition
       pure (some (.ifStmt condition thenBranch elseBranch))
 
     | .whileStmt _ condition body =>
       let condition ← exprToAsgTexpr fuel condition
-      enterScope .localS
-      let body ← match body with
-        | .ok b => pure b
-        | .panicked => fail "block_or_stmt: Error in oq3_syntax"
-      let loopBody ← blockOrStmtToAsgType fuel body
-      exitScope
+      let loopBody ← withScope .localS do
+        let body ← match body with
+          | .ok b => pure b
+          | .panicked => fail "block_or_stmt: Error in oq3_syntax"
+        blockOrStmtToAsgType fuel body
       let condition ← unwrap "stmt_to_asg_stmt: WhileStmt condition.unwrap() on None" condition
       pure (some (.whileStmt condition loopBody))
 
@@ -73,23 +70,22 @@ def stmtToAsgStmt : Nat → Ast.Stmt → M (Option Stmt)
               let e ← unwrap "stmt_to_asg_stmt: ForStmt iterable expression unwrap() on None" e
               pure (ForIterable.expr e)
             | none => fail "stmt_to_asg_stmt: ForStmt unreachable!() no iterable"
-      enterScope .localS
-      let loopVarSymbolId ← newBinding loopVar.text ty loopVar.span
-      let body ← match body with
-        | .ok b => pure b
-        | .panicked => fail "block_or_stmt: Error in oq3_syntax"
-      let loopBody ← blockOrStmtToAsgType fuel body
-      exitScope
+      let (loopVarSymbolId, loopBody) ← withScope .localS do
+        let loopVarSymbolId ← newBinding loopVar.text ty loopVar.span
+        let body ← match body with
+          | .ok b => pure b
+          | .panicked => fail "block_or_stmt: Error in oq3_syntax"
+        let loopBody ← blockOrStmtToAsgType fuel body
+        pure (loopVarSymbolId, loopBody)
       pure (some (.forStmt loopVarSymbolId iterable loopBody))
 
     | .switchCaseStmt _ control caseExprs defaultBlock =>
       let control ← exprToAsgTexpr fuel control
       let cases ← caseExprsLoop fuel caseExprs
-      enterScope .localS
-      let defaultStatements ← match defaultBlock with
+      let defaultStatements ← withScope .localS do
+        match defaultBlock with
         | some block => do pure (some (← blockExprToAsgStmtList fuel block))
         | none => pure none
-      exitScope
       let control ← unwrap "stmt_to_asg_stmt: SwitchCaseStmt control.unwrap() on None" control
       pure (some (.switchCaseStmt control cases defaultStatements))
 
@@ -103,7 +99,7 @@ def stmtToAsgStmt : Nat → Ast.Stmt → M (Option Stmt)
       pure (some s)
 
     | .quantumDeclarationStatement span name hardwareQubit qubitType =>
-      if !(← inGlobalScope) then insertError .notInGlobalScopeError span
+      notGlobalCheck span
       match name with
       | none =>
         let hwQubit ← unwrap "stmt_to_asg_stmt: QuantumDeclarationStatement hardware_qubit() is None"
@@ -127,17 +123,15 @@ def stmtToAsgStmt : Nat → Ast.Stmt → M (Option Stmt)
     | .endStmt _ => pure (some .endStmt)
 
     | .gate _ name angleParams qubitParams body =>
-      if !(← inGlobalScope) then
-        let n ← unwrap "stmt_to_asg_stmt: Gate name() is None" name
-        insertError .notInGlobalScopeError n.span
+      gateNotGlobalCheck name
       let nameNode ← unwrap "stmt_to_asg_stmt: Gate name() is None" name
-      enterScope .subroutine
-      let params ← bindParameterList angleParams (.angle none true)
-      let qubits ← bindParameterList qubitParams .qubit
-      let qubits ← unwrap "stmt_to_asg_stmt: Gate qubit params unwrap() on None" qubits
-      let body ← unwrap "stmt_to_asg_stmt: Gate body() is None" body
-      let block ← blockExprToAsgType fuel body
-      exitScope
+      let (params, qubits, block) ← withScope .subroutine do
+        let params ← bindParameterList angleParams (.angle none true)
+        let qubits ← bindParameterList qubitParams .qubit
+        let qubits ← unwrap "stmt_to_asg_stmt: Gate qubit params unwrap() on None" qubits
+        let body ← unwrap "stmt_to_asg_stmt: Gate body() is None" body
+        let block ← blockExprToAsgType fuel body
+        pure (params, qubits, block)
       let numParams := match params with
         | some ps => ps.length
         | none => 0
@@ -146,12 +140,12 @@ def stmtToAsgStmt : Nat → Ast.Stmt → M (Option Stmt)
 
     | .defStmt _ name typedParamList body returnSignature =>
       let nameNode ← unwrap "stmt_to_asg_stmt: Def name() is None" name
-      if !(← inGlobalScope) then insertError .notInGlobalScopeError nameNode.span
-      enterScope .subroutine
-      let params ← bindTypedParameterList typedParamList
-      let body ← unwrap "stmt_to_asg_stmt: Def body() is None" body
-      let block ← blockExprToAsgType fuel body
-      exitScope
+      notGlobalCheck nameNode.span
+      let (params, block) ← withScope .subroutine do
+        let params ← bindTypedParameterList typedParamList
+        let body ← unwrap "stmt_to_asg_stmt: Def body() is None" body
+        let block ← blockExprToAsgType fuel body
+        pure (params, block)
       let numParams := match params with
         | some ps => ps.length
         | none => 0
@@ -175,9 +169,7 @@ def stmtToAsgStmt : Nat → Ast.Stmt → M (Option Stmt)
       let dexpr := match d with | .mk _ e => e
       let duration ← exprToAsgTexpr fuel dexpr
       let duration ← unwrap "stmt_to_asg_stmt: DelayStmt duration unwrap() on None" duration
-      match duration.getType with
-      | .duration _ => pure ()
-      | _ => insertError .incompatibleTypesError d.span
+      delayDurationCheck duration d.span
       pure (some (.delay duration gateOperands))
 
     | .reset _ gateOperand =>
@@ -219,10 +211,9 @@ def caseExprsLoop : Nat → List Ast.CaseExpr → M (List CaseExpr)
   | fuel+1, (.mk _ expressionList blockExpr) :: rest => do
     let el ← unwrap "stmt_to_asg_stmt: CaseExpr expression_list() is None" expressionList
     let intExprs ← expressionListToAsgTexpr fuel el
-    enterScope .localS
-    let block ← unwrap "stmt_to_asg_stmt: CaseExpr block_expr() is None" blockExpr
-    let statements ← blockExprToAsgStmtList fuel block
-    exitScope
+    let statements ← withScope .localS do
+      let block ← unwrap "stmt_to_asg_stmt: CaseExpr block_expr() is None" blockExpr
+      blockExprToAsgStmtList fuel block
     let cs ← caseExprsLoop fuel rest
     pure (CaseExpr.mk intExprs statements :: cs)
 
@@ -325,12 +316,7 @@ def exprToAsgTexpr : Nat → Option Ast.Expr → M (Option TExpr)
       let left ← unwrap "expr_to_asg_texpr: BinExpr left unwrap() on None" left
       let right ← exprToAsgTexpr fuel rhs
       let right ← unwrap "expr_to_asg_texpr: BinExpr right unwrap() on None" right
-      if isQuantum left.getType then
-        let l ← unwrap "expr_to_asg_texpr: bin_expr.lhs() is None" lhs
-        insertError .incompatibleTypesError l.span
-      if isQuantum right.getType then
-        let r ← unwrap "expr_to_asg_texpr: bin_expr.rhs() is None" rhs
-        insertError .incompatibleTypesError r.span
+      quantumBinopCheck left right lhs rhs
       pure (some (newTexprWithCast op left right))
 
     | .literal literal => literalToAsgTexpr literal
@@ -386,7 +372,7 @@ def exprToAsgTexpr : Nat → Option Ast.Expr → M (Option TExpr)
 
     | .returnExpr span inner =>
       let exprAsg ← exprToAsgTexpr fuel inner
-      if (← currentScopeType) == .global then insertError .returnInGlobalScopeError span
+      returnGlobalCheck span
       pure (some (returnExpressionToTexpr exprAsg))
 
     | .castExpression _ scalarType inner =>
@@ -439,23 +425,7 @@ def gateCallExprToAsgStmt : Nat → Ast.GateCallExpr → List GateModifier → M
       | none => 0
     let gateId ← unwrap "gate_call_expr_to_asg_stmt: identifier() is None" identifier
     let (symbolResult, gateType) ← lookupGateSymbol gateId.text gateId.span
-    match gateType with
-    | .gate defNumParams defNumQubits =>
-      if defNumParams != numParams then
-        if numParams != 0 then
-          let al ← unwrap "gate_call_expr_to_asg_stmt: arg_list() is None" argList
-          insertError .numGateParamsError al.span
-        else
-          insertError .numGateParamsError gateId.span
-      let numQubits := gateOperands.length
-      if defNumQubits != numQubits then
-        if numQubits == 0 then
-          insertError .numGateQubitsError span
-        else
-          let ql ← unwrap "gate_call_expr_to_asg_stmt: qubit_list() is None" qubitList
-          insertError .numGateQubitsError ql.span
-    | _ =>
-      if symbolResult.isOk then insertError .incompatibleTypesError gateId.span
+    gateCallCheck span qubitList argList gateId symbolResult gateType numParams gateOperands.length
     pure (some (.gateCall symbolResult paramList gateOperands modifiers))
 
 /-- `call_expr_to_asg_texpr` -/
@@ -474,9 +444,7 @@ def callExprToAsgTexpr : Nat → Ast.Span → Option Ast.ArgList → Option Ast.
       let numParams := match paramList with
         | some ps => ps.length
         | none => 0
-      if expectedNumParams != numParams then
-        let al ← unwrap "call_expr_to_asg_texpr: arg_list() is None" argList
-        insertError .numDefParamsError al.span
+      defArityCheck expectedNumParams numParams argList
       pure (subroutineCallToTexpr symbolResult paramList returnType)
     | _ => fail "call_expr_to_asg_texpr: programming error: expected Type::Def variant"
 
@@ -489,15 +457,11 @@ def gateOperandToAsgTexpr : Nat → Ast.GateOperand → M TExpr
       pure (gateOperandToTexpr (.hardwareQubit hwq.text) .hwqubit)
     | .identifier identifier =>
       let (sym, typ) ← lookupIdentifier identifier
-      match typ with
-      | .qubit | .hwqubit | .qubitArray _ => pure ()
-      | _ => insertError .incompatibleTypesError gateOperand.span
+      gateOperandIdentCheck typ gateOperand.span
       pure (gateOperandToTexpr (.identifier sym) typ)
     | .indexedIdentifier indexedIdentifier =>
       let (ii, typ) ← indexedIdentifierToAsgType fuel indexedIdentifier
-      match typ with
-      | .qubitArray _ => pure ()
-      | _ => insertError .incompatibleTypesError gateOperand.span
+      gateOperandIndexedCheck typ gateOperand.span
       pure (gateOperandToTexpr (.indexedIdentifier ii) typ)
 
 /-- `index_operator_to_asg_type` -/
@@ -585,7 +549,7 @@ def classicalDeclarationStatementToAsgStmt : Nat → Ast.Span → Bool → Optio
   | 0, _, _, _, _, _, _ => throw .fuel
   | fuel+1, span, arrayType, scalarType, constToken, name, expr => do
     let lhsType ← if arrayType then do
-        if !(← inGlobalScope) then insertError .notInGlobalScopeError span
+        notGlobalCheck span
         insertError .notImplementedError span
         pure T.todo
       else do
@@ -628,7 +592,6 @@ def assignmentStmtToAsgStmt : Nat → Ast.Span → Option Ast.Identifier → Opt
       let expr ← unwrap "assignment_stmt_to_asg_stmt: rhs unwrap() on None" expr
       let (symbolId, symbolType) ← lookupSymbol name.text name.span
       let symbolOk := symbolId.isOk
-      let isMutatingConst := symbolOk && isConst symbolType
       let lvalue := LValue.identifier symbolId
       let exprType := expr.getType
       let expr ←
@@ -653,7 +616,7 @@ def assignmentStmtToAsgStmt : Nat → Ast.Span → Option Ast.Identifier → Opt
                 insertError .incompatibleTypesError span
                 pure expr
         else pure expr
-      if isMutatingConst then insertError .mutateConstError span
+      mutateConstCheck symbolOk symbolType span
       pure (some (.assignment lvalue expr))
     | none =>
       let indexedIdentifierAst ← unwrap "assignment_stmt_to_asg_stmt: indexed_identifier() is None"
